@@ -40,7 +40,7 @@ ASSUMPTIONS = [
 ]
 
 
-EXPECTED_PROBES = ['infinite_feature_values', 'integer_percentage', 'negative_identifiers', 'file_of_several_hundred_kib', 'binary_file_replaced_at_same_path', 'split_input_not_plain_float64_c_order', 'caller_overwrote_split_outputs', 'all_three_formats_compared', 'empty_first_set', 'empty_second_set', 'float_and_exact_floor_differ', 'gap_labels_rejected', 'ids_beyond_float32_exact_range', 'ids_differ_from_row_numbers', 'pct_times_n_is_an_integer', 'single_sample_file_loaded', 'split_reissued_after_prng_perturbation', 'three_or_more_classes']
+EXPECTED_PROBES = ['subset_file_without_first_class', 'infinite_feature_values', 'integer_percentage', 'negative_identifiers', 'file_of_several_hundred_kib', 'binary_file_replaced_at_same_path', 'split_input_not_plain_float64_c_order', 'caller_overwrote_split_outputs', 'all_three_formats_compared', 'empty_first_set', 'empty_second_set', 'float_and_exact_floor_differ', 'gap_labels_rejected', 'ids_beyond_float32_exact_range', 'ids_differ_from_row_numbers', 'pct_times_n_is_an_integer', 'single_sample_file_loaded', 'split_reissued_after_prng_perturbation', 'three_or_more_classes']
 
 SLOW_ARMS = ("big",)
 
@@ -80,7 +80,7 @@ def gen_case(rng, arm, tier, k=0):
     if rng.random() < 0.08:
         # +inf / -inf are legal float32 feature values
         for _ in range(rng.randint(1, 3)):
-            X[rng.randrange(n)][rng.randrange(d)] = rng.choice((float("inf"), float("-inf")))
+            X[rng.randrange(n)][rng.randrange(d)] = rng.choice((float("inf"), float("-inf"), float("nan")))
     Y = list(range(K)) + [rng.randrange(K) for _ in range(n - K)]
     rng.shuffle(Y)
     r = rng.random()
@@ -155,6 +155,11 @@ def gen_case(rng, arm, tier, k=0):
         Y2 = list(range(K2)) + [rng.randrange(K2) for _ in range(n2 - K2)]
         rng.shuffle(Y2)
         case["alt"] = {"n": n2, "d": d, "K": K2, "X": [[f32(round(rng.uniform(-5, 5), 3)) for _ in range(d)] for _ in range(n2)], "Y": Y2, "ids": rng.sample(range(0, 900), n2)}
+        if rng.random() < 0.3:
+            # a subset file that lacks the first class(es): every converter must still write stored-1
+            sh = rng.randint(1, 2)
+            case["alt"]["Y"] = [y + sh for y in Y2]
+            case["alt"]["shifted"] = sh
         pos = rng.randrange(1, len(ops) + 1)
         ops.insert(pos, ["write_opf", "alt"])
     return case
@@ -185,7 +190,7 @@ def run_case(case):
         if n < 1 or sorted(set(case["Y"])) != list(range(K)) or "." in scratch or any(len(r) != d for r in case["X"]):
             raise OutOfDomain()
         X = np.array(case["X"], dtype=np.float64).reshape(n, d)
-        if not np.array_equal(X.astype(np.float32).astype(np.float64), X):
+        if not np.array_equal(X.astype(np.float32).astype(np.float64), X, equal_nan=True):
             raise OutOfDomain()
         Y = np.array(case["Y"], dtype=np.int64)
         ids = case["ids"]
@@ -309,6 +314,22 @@ def run_case(case):
                     data = lib_call("load_" + fmt, loader, conv[fmt])
                     if data is None:
                         raise Stop(violation("loader-returned-none", "load_%s returned None for a file written by opf2%s" % (fmt, fmt), fmt=fmt, **facts))
+                    raw_labels = [int(v) for v in np.asarray(data)[:, 1]] if np.asarray(data).ndim == 2 else None
+                    if raw_labels != [int(v) for v in fY]:
+                        raise Stop(violation("labels-not-preserved", "load_%s: the label column is %s, stored label - 1 = %s" % (fmt, (raw_labels or [])[:8], [int(v) for v in fY][:8]), fmt=fmt, op=kop, **facts))
+                    if min(int(v) for v in fY) > 0:
+                        # labels do not start at 0: parse_loader must reject, in every format alike
+                        try:
+                            B.parser.parse_loader(data)
+                            accepted = True
+                        except Exception:  # noqa: BLE001
+                            accepted = False
+                        if accepted:
+                            raise Stop(violation("gap-labels-accepted", "parse_loader accepted data loaded from the .%s file whose labels %s do not start at 0" % (fmt, sorted(set(int(v) for v in fY)))))
+                        bump(out.probes, "subset_file_without_first_class")
+                        log.add("load-shifted", fmt)
+                        norm.append(("load-shifted", fmt))
+                        continue
                     res = lib_call("parse_loader(%s)" % fmt, B.parser.parse_loader, data)
                     Xl, Yl = res
                     if Xl is None:
@@ -318,6 +339,15 @@ def run_case(case):
                     if got_ids != [int(i) for i in fids]:
                         raise Stop(violation("ids-not-preserved", "ids loaded from the .%s file are %s, stored %s" % (fmt, got_ids[:6], fids[:6]), fmt=fmt))
                     what = "load_%s + parse_loader" % fmt
+                elif min(int(v) for v in fY) > 0:
+                    try:
+                        B.subgraph_mod.Subgraph(from_file=conv[fmt])
+                        accepted = True
+                    except Exception:  # noqa: BLE001 - the rejection this file deserves
+                        accepted = False
+                    if accepted:
+                        raise Stop(violation("gap-labels-accepted", "Subgraph(from_file=.%s) accepted a file whose labels %s do not start at 0" % (fmt, sorted(set(int(v) for v in fY)))))
+                    continue
                 else:
                     sg = lib_call("Subgraph(from_file=.%s)" % fmt, B.subgraph_mod.Subgraph, from_file=conv[fmt])
                     if len(sg.nodes) != len(fX):
